@@ -106,7 +106,7 @@ func tierOf(name string) tierCfg {
 	if name == "thorough" {
 		return tierCfg{name: "thorough", maxPaths: 250000, unwind: 16, solverMs: 120000, perHarness: 25 * time.Minute, samples: 12, solvers: []string{"z3-new+z3", "cvc5"}}
 	}
-	return tierCfg{name: "quick", maxPaths: 40000, unwind: 12, solverMs: 20000, perHarness: 150 * time.Second, samples: 3, solvers: []string{"z3-new+z3"}}
+	return tierCfg{name: "quick", maxPaths: 40000, unwind: 12, solverMs: 8000, perHarness: 150 * time.Second, samples: 3, solvers: []string{"z3-new+z3"}}
 }
 
 type harnessResult struct {
